@@ -15,7 +15,7 @@ CHECKS.update({
              note="Trusts the numpy reference and the BLOCH_VERIF amplitude accessor; angles come from a fixed list plus random doubles.",
              ref="DESIGN.md §4 C01"),
  "C02": dict(technique="property-based testing: exact projection oracle on generated gate/measure histories + binomial/multinomial tests (z=5.5) on the simulator's own seeded draws",
-             text="Every measurement in generated histories is compared amplitude-by-amplitude with the normalised projection onto the reported outcome (impossible outcomes are violations); Born-rule frequencies are tested on shaped states (p1 from 0 to 1, entangled partners) and on full sequential measurement of entangled registers.",
+             text="Every measurement in generated histories is compared amplitude-by-amplitude with the normalised projection onto the reported outcome (impossible outcomes are violations); Born-rule frequencies are tested on shaped states (p1 from 0 to 1, entangled partners) and on full sequential measurement of entangled registers. A further family interleaves resets of superposed / entangled qubits with gates and a fresh coin and compares the distribution of the MEASURED outcomes over 4000 seeded repetitions with the mixture over reset branches (a measurement after a reset must be an independent Born draw).",
              note="Statistical part: deterministic seeds, z=5.5 (false alarm < 4e-8 per test). Trusts numpy reference, RNG-seeding and outcome-log hooks.",
              ref="DESIGN.md §4 C02"),
  "C03": dict(technique="model-based (stateful) property testing: generated alloc/gate/cx/measure/reset histories with invariants checked after every step",
@@ -23,13 +23,13 @@ CHECKS.update({
              note="Continues from the implementation's own state after each step so errors do not compound; trusts numpy reference and amplitude hook.",
              ref="DESIGN.md §4 C03"),
  "C04": dict(technique="property-based testing with a statistical oracle: frequency-weighted reduced density matrix of the non-target qubits over K seeded resets vs partial trace of the pre-reset state",
-             text="Implementation-agnostic locality oracle: whatever branches reset takes, their frequency-weighted mixture restricted to the other qubits must equal the partial trace of psi_before (6 sigma), and every branch must have zero amplitude wherever the target bit is set. Found and led to the repair of the projection-style reset.",
+             text="Implementation-agnostic locality oracle: whatever branches reset takes, their frequency-weighted mixture restricted to the other qubits must equal the partial trace of psi_before (6 sigma), and every branch must have zero amplitude wherever the target bit is set. Found and led to the repair of the projection-style reset. Program level: reset statement, destroy of the owning object, index reuse, and reuse after the released indices were disturbed through copied handles.",
              note="K=3000 repetitions per state, tolerance 6*sqrt(1/4K); trusts numpy partial trace and hooks.",
              ref="DESIGN.md §4 C04"),
 })
 CHECKS.update({
  "C07": dict(technique="property-based differential testing: Hypothesis-generated well-typed programs vs an independent reference interpreter written from the documentation",
-             text="A typed-by-construction generator covers every operator, promotion, cast, array and control-flow form of the documented classical core; echo output (numeric tokens compared numerically) or the runtime error kind must equal the reference interpreter's. Results the docs do not fix are discarded and counted, never asserted.",
+             text="A typed-by-construction generator covers every operator, promotion, cast, array and control-flow form of the documented classical core; echo output (numeric tokens compared numerically) or the runtime error kind must equal the reference interpreter's. Results the docs do not fix are discarded and counted, never asserted. Two closed-form families: the nine int->long widening sites with operands up to 2^31-1 (arithmetic and overload selection must see a long), and leaving a for loop by return (step forms with calls, echoes and a failing guard; nested loops; functions and methods).",
              note="Trusts pbt/ref_classic.py as a faithful reading of docs/language/*.md and docs/casting.md; programs are run through the real CLI entry point of an ASan/UBSan build.",
              ref="DESIGN.md §4 C07"),
  "C10": dict(technique="metamorphic property-based testing: permutations of top-level declarations of generated programs must not change acceptance, diagnostic category, exit status or stdout",
@@ -45,11 +45,11 @@ CHECKS.update({
              note="Trusts the renderer's reading of docs/grammar.md and the driver's AST dumper (public node structs, parentheses transparent).",
              ref="DESIGN.md §4 C14"),
  "C19": dict(technique="property-based testing against a reference model: generated directory trees / search paths / working directories vs a reference import resolver; validity predicate on the merged order",
-             text="Marker classes make the set of loaded files observable; success must load exactly the predicted files once each with dependencies first, failure must be a Semantic diagnostic. Generator builds diamonds, cycles, shadowed paths, wildcard directories, bloch.* preference and aliased search paths on purpose.",
+             text="Marker classes make the set of loaded files observable; success must load exactly the predicted files once each with dependencies first, failure must be a Semantic diagnostic. Generator builds diamonds, cycles, shadowed paths, wildcard directories, bloch.* preference and aliased search paths on purpose. One file may be reached under a full and a relative qualified name.",
              note="Reference resolver written from language-guide.md/semantics.md; bloch/lang/Object.bloch is never generated.",
              ref="DESIGN.md §4 C19"),
  "C20": dict(technique="property-based testing of the updater's pure helpers (compiled into a harness TU): reference semver parser, order laws, exact-name checksum lookup, model-based 72 h throttle sequences",
-             text="Version strings from a grammar (huge numbers, leading zeros, suffixes, garbage) in triples check parse agreement, antisymmetry/transitivity and the notice/install gates; checksums.txt files with decoy assets check exact matching; invocation sequences over virtual time and over a real cache file check the throttle and the environment switches.",
+             text="Version strings from a grammar (huge numbers, leading zeros, suffixes, garbage) in triples check parse agreement, antisymmetry/transitivity and the notice/install gates; checksums.txt files with decoy assets check exact matching; invocation sequences over virtual time and over a real cache file check the throttle and the environment switches. Invocation sequences also contain steps whose last release lookup is stale, so that a lookup is attempted and fails offline.",
              note="The network leg (download, extract, replace) cannot run offline and is not exercised; the install gate is observed as !hasLatest(current, latest).",
              ref="DESIGN.md §4 C20", engine="hypothesis+verifupd"),
 })
@@ -67,23 +67,23 @@ CHECKS.update({
              note="Objects that die at the same scope exit may be destroyed in any order (traces are compared as sets of per-object chains). Known finding generic-base-args: the analyser ignores the type arguments of an extends clause; the generators stay inside the accepted region and a reproducer is replayed on every run.",
              ref="DESIGN.md §4 C08"),
  "C09": dict(technique="metamorphic property-based testing: alpha-renaming of one local/parameter of one function/method/constructor to a fresh or colliding (capture-free) name must not change stdout/status/diagnostic",
-             text="Programs whose methods use bare field names are renamed so that a local of a caller or callee collides with a field or with locals elsewhere; under lexical scoping nothing may change.",
+             text="Programs whose methods use bare field names are renamed so that a local of a caller or callee collides with a field or with locals elsewhere; under lexical scoping nothing may change. Half of the cases rename every declared name of the chosen body at once (a composition of capture-free renamings), preferring names of fields that methods update through their bare name and constructor parameters that shadow a field.",
              note="Capture-freedom is guaranteed by construction; destructor order at a shared scope exit is canonicalised (it follows the hash of variable names).",
              ref="DESIGN.md §4 C09"),
  "C11": dict(technique="metamorphic property-based testing over generated collection schedules (hook-controlled: never / every boundary / allocation pressure / drawn bit masks) + ThreadSanitizer runs with the real timer thread",
-             text="Allocation-heavy programs (objects held only by pending arguments, receivers, values in flight, constructor argument lists; unreachable cycles) must print the same output and destructor trace under every schedule as under 'never'; TSan must stay silent with the real 50 ms timer and no thread may outlive the evaluator, also after a runtime error.",
+             text="Allocation-heavy programs (objects held only by pending arguments, receivers, values in flight, constructor argument lists; unreachable cycles) must print the same output and destructor trace under every schedule as under 'never'; TSan must stay silent with the real 50 ms timer and no thread may outlive the evaluator, also after a runtime error. Structures with several reference fields (back links declared before forward links, shared first fields, qubit-owning objects holding plain objects) are walked after forced collections.",
              note="Interleavings of the timer thread are not enumerated; TSan's happens-before analysis on the executed paths is the evidence offered.",
              ref="DESIGN.md §4 C11", engine="hypothesis+verifdrv+tsan_runner"),
  "C12": dict(technique="property-based testing / template fuzzing with sanitizers as oracle: edge-value programs and literal-mutated generated programs through the real CLI of an ASan+UBSan build",
-             text="Accepted programs built around arithmetic extremes, bad indices, null references, errors raised inside constructors / initialisers / destructors while objects are live, deep hierarchies with overloaded virtuals and qubit misuse must end with status 0 or with exactly one 'Runtime error' line; signals, sanitizer reports and raw exception texts are violations.",
+             text="Accepted programs built around arithmetic extremes, bad indices, null references, errors raised inside constructors / initialisers / destructors while objects are live, deep hierarchies with overloaded virtuals and qubit misuse must end with status 0 or with exactly one 'Runtime error' line; signals, sanitizer reports and raw exception texts are violations. Plus dispatch-heavy programs shared with C08 (overload matrix with generic levels, generic hierarchies) and an array boundary family (every element type x holder x load/store x index around the length) whose validity is known in closed form.",
              note="Unbounded recursion (ASan stack-overflow) is out of the property's scope and counted separately; three UBSan sub-checks are off (DESIGN.md 2.3).",
              ref="DESIGN.md §4 C12"),
- "C16": dict(technique="exhaustive enumeration of a rule x position x type-pair matrix (458 violating/repaired snippet pairs in a fixed skeleton, 6 syntactic embeddings each) with a metamorphic pair oracle",
+ "C16": dict(technique="exhaustive enumeration of a rule x position x type-pair matrix (490 violating/repaired snippet pairs in a fixed skeleton, 6 syntactic embeddings each) with a metamorphic pair oracle",
              text="Each cell is backed by a documented rule; the violating program must be rejected with a Semantic diagnostic and its repaired twin accepted, in main, functions, methods, constructors, static methods, subclasses, unrelated classes, field and static initialisers, loop headers and nested blocks.",
              note="Finite matrix run completely in the quick tier; only the diagnostic category is compared; R9 accepts any rejection.",
              ref="DESIGN.md §4 C16"),
  "C17": dict(technique="property-based testing against a reference model: per-shot tracked tables vs the abstract interpreter of the program's measurement history; CLI aggregate table parsed and compared with the sum of per-shot tables (same seeds)",
-             text="Loop-scoped and helper-local tracked variables, partly measured registers, reset histories and tracked object fields are generated with shot counts from flag and/or annotation and every --echo mode; counts, totals (N x exits), probabilities (count/total, in [0,1], sum 1), header and echo multiplicity are checked.",
+             text="Loop-scoped and helper-local tracked variables, partly measured registers, reset histories and tracked object fields are generated with shot counts from flag and/or annotation and every --echo mode; counts, totals (N x exits), probabilities (count/total, in [0,1], sum 1), header and echo multiplicity are checked. Measurements also occur directly inside echo arguments (echo(measure q)), which must take effect whether or not echo output is shown.",
              note="CLI shots are seeded through the BLOCH_VERIF_SHOT_SEED hook with the same per-shot seeds as the API run.",
              ref="DESIGN.md §4 C17"),
  "C18": dict(technique="metamorphic property-based testing: an N-shot run in one process must equal N fresh single-shot processes with the same per-shot seeds",
